@@ -62,6 +62,29 @@ def lgamma_tol(F, n):
     return 1e-9 + 20 * 2.2e-16 * a * np.log(a + 2) * max(n, 1)
 
 
+def inbreeding_pmf(x, F, ploidy, nind):
+    """P[j, i] = probability of i derived alleles among nind individuals of the given ploidy at grid point j: the nind-fold
+    convolution of a beta-binomial(ploidy, x(1-F)/F, (1-x)(1-F)/F) written from the definition (end points at 1e-20 from 0 / 1)."""
+    from scipy.special import betaln, gammaln
+    c = (1.0 - F) / F
+    xe = np.array(x, dtype=float)
+    xe[0], xe[-1] = 1e-20, 1.0
+    al, be = xe * c, (1.0 - xe) * c
+    be[-1] = 1e-20 * c
+    al[-1] = (1.0 - 1e-20) * c
+    be[0] = (1.0 - 1e-20) * c
+    k = np.arange(ploidy + 1)
+    lnC = gammaln(ploidy + 1) - gammaln(k + 1) - gammaln(ploidy - k + 1)
+    one = np.exp(lnC[None, :] + betaln(k[None, :] + al[:, None], ploidy - k[None, :] + be[:, None]) - betaln(al, be)[:, None])
+    out = np.zeros((len(xe), ploidy * nind + 1))
+    for j in range(len(xe)):
+        pm = np.array([1.0])
+        for _ in range(nind):
+            pm = np.convolve(pm, one[j])
+        out[j] = pm
+    return out
+
+
 def plan(tier, seed):
     q = tier == "quick"
     specs = []
@@ -72,7 +95,7 @@ def plan(tier, seed):
         n = {1: 20, 2: 14, 3: 6, 4: 3}[nd] * (1 if q else 8)
         specs.append({"name": "direct-%dD" % nd, "kind": "direct", "nd": nd, "n": n, "timeout": 1500})
     for nd in range(1, 4):
-        n = {1: 10, 2: 5, 3: 2}[nd] * (1 if q else 6)
+        n = {1: 10, 2: 6, 3: 6}[nd] * (1 if q else 6)
         specs.append({"name": "inbreed-%dD" % nd, "kind": "inbreed", "nd": nd, "n": n, "timeout": 1800})
     specs.append({"name": "bbc", "kind": "bbc", "n": 60 if q else 600, "timeout": 900})
     specs.append({"name": "refine", "kind": "refine", "n": 6 if q else 40, "timeout": 1500})
@@ -81,7 +104,7 @@ def plan(tier, seed):
 
 def required(tier):
     r = {"mass": 50, "project-consistency": 50, "marginal-consistency": 30, "linear-in-phi": 50, "direct-trapezoid": 30,
-         "het-ascertained": 20, "admix-identity": 15, "admix-random": 15, "admix-mass": 15, "inbreeding-mass": 10,
+         "het-ascertained": 20, "admix-identity": 15, "admix-random": 15, "admix-mass": 15, "inbreeding-mass": 10, "inbreeding-reference": 10,
          "inbreeding-F-to-0": 10, "betabinom-sum-one": 50, "direct-vs-analytic-refines": 4}
     for nd in range(1, 6):
         r["exact-binhat-%dD" % nd] = 3
@@ -234,6 +257,11 @@ def run(spec, rec):
             ploidys = [int(rng.choice([2, 2, 4, 6, 8])) for _ in range(nd)]
             ns = [p * int(rng.integers(1, {1: 4, 2: 3, 3: 2}[nd] + 1)) for p in ploidys]
             Fs = [float(rng.choice([1e-8, 1e-4, 0.01, 0.3, 0.9, 0.99])) for _ in range(nd)]
+            if ci % 2 == 0:
+                # every population with its own moderate F and its own ploidy: a coefficient taken from the wrong population shows
+                Fs = [float(v) for v in rng.permutation([0.05, 0.3, 0.7])[:nd]]
+                ploidys = [int(v) for v in rng.permutation([2, 4, 6])[:nd]]
+                ns = [p * int(rng.integers(1, 3)) for p in ploidys]
             desc = {"nd": nd, "L": L, "ns": ns, "ploidy": ploidys, "F": Fs}
             if not rec.case("inb%d-%d" % (nd, ci), desc, nontrivial=True):
                 continue
@@ -247,6 +275,12 @@ def run(spec, rec):
                 d = np.asarray(fi.data)
                 rec.check("inbreeding-nonneg", bool(np.all(d >= -1e-12 * np.max(np.abs(d)))), site=site, tags=tags)
                 rec.close("inbreeding-mass", abs(d.sum() - mass) / mass, lgamma_tol(min(Fs), max(ns)) * nd, site=site, tags=tags)
+                # the documented formula from its definition: trapezoid of phi against the per-population convolved beta-binomials,
+                # each population with its own F and ploidy
+                P = [inbreeding_pmf(x, Fs[k], ploidys[k], ns[k] // ploidys[k]) for k in range(nd)]
+                refi = contract(phi, [(P[k] * w[:, None]).T for k in range(nd)])
+                tags_i = dict(tags, distinct_F=len(set(Fs)) == nd, distinct_ploidy=len(set(ploidys)) == nd)
+                rec.close("inbreeding-reference", relerr(d, refi), 20 * nd * lgamma_tol(min(Fs), max(ns)), site=site, tags=tags_i)
             # F -> 0 is continuous with the direct path
             for F0 in (1e-8, 1e-6, 1e-4):
                 okf, f0 = rec.noraise("from_phi_inbreeding-returns", lambda: Spectrum.from_phi_inbreeding(phi, ns, grids, [F0] * nd, ploidys, mask_corners=False), site=site, tags=tags)
